@@ -121,7 +121,17 @@ fn evaluate_do_block_expr(
         // Still check for keywords
         if matches!(
             ident.as_str(),
-            "return" | "if" | "then" | "else" | "do" | "true" | "false" | "null" | "output"
+            "return"
+                | "if"
+                | "then"
+                | "else"
+                | "do"
+                | "true"
+                | "false"
+                | "null"
+                | "output"
+                | "infinity"
+                | "inf"
         ) {
             return Err(RuntimeError::with_span(
                 format!("{} is a keyword, and cannot be reassigned", ident),
@@ -370,6 +380,8 @@ pub fn evaluate_ast(
             }
 
             if ident == "constants"
+                || ident == "infinity"
+                || ident == "inf"
                 || ident == "if"
                 || ident == "then"
                 || ident == "else"
